@@ -198,9 +198,10 @@ def check(run: Run) -> None:
             if st[0] in ("gvisit", "visit", "tvisit", "new", "app", "index", "phi", "attr", "upd", "ifexp"):
                 return "node-kind invariant of an internal value"
             # already established on every path to the assert (e.g. by the guard at the helper's only call site): cannot fail
-            cls_names = {Facts(fa, n)._cls_name(c_) for c_ in (t.args[1].elts if isinstance(t.args[1], ast.Tuple) else [t.args[1]])}
-            if Facts(fa, n).isinstance_of(st, cls_names):
-                return "already known where it is made"
+            if fa.cfg.has_node(n):
+                cls_names = {Facts(fa, n)._cls_name(c_) for c_ in (t.args[1].elts if isinstance(t.args[1], ast.Tuple) else [t.args[1]])}
+                if Facts(fa, n).isinstance_of(st, cls_names):
+                    return "already known where it is made"
         wl = ASSERT_WHITELIST.get(fi.qual) or _BY_PATH.get(fi.qual.split(":")[1]) or inherited.get(fi.qual)
         if wl is None and isinstance(t, ast.Compare) and len(t.ops) == 1 and isinstance(t.ops[0], ast.IsNot) and isinstance(t.comparators[0], ast.Constant) and t.comparators[0].value is None and isinstance(t.left, ast.Attribute) and isinstance(t.left.value, ast.Name) and fi.cls is not None and fi.pos_params and t.left.value.id == fi.pos_params[0]:
             wl = "bookkeeping invariant of the object's own state (self.<attr> is not None)"
